@@ -396,12 +396,29 @@ def N8():
         return 'merge of images with header slice dims (2, None): result header slice %r but extension slice_dim %r' % (h, e)
 
 
+def N9():
+    st = dcmstack.DicomStack(time_order='EchoTime')
+    n = 0
+    for te in (10.0, 20.0):
+        for z in (0.0, 1.0):
+            n += 1
+            ds = _mk_ds(ipp=(0., 0., z), inst=n, extra={'EchoTime': te})
+            if te == 20.0 and z == 0.0:
+                ds.ImageOrientationPatient = [1., 0., 2.0 ** -17, 0., 1., 0.]
+            st.add_dcm(ds)
+    w = st.to_nifti_wrapper('')
+    shape = w.nii_img.shape
+    vals = [w.get_meta('InstanceNumber', (0, 0, s, 1)) for s in range(shape[2])]
+    if any(v is None for v in vals):
+        return 'orientation jitter 2**-17 in one file (accepted by add_dcm): per-slice InstanceNumber of volume 1 looked up as %r' % (vals,)
+
+
 def deepcopy_ext(e):
     from copy import deepcopy
     return deepcopy(e)
 
 
-OPEN = ['N1', 'N2', 'N3', 'N4', 'N6', 'N8']
+OPEN = ['N1', 'N2', 'N3', 'N4', 'N6', 'N8', 'N9']
 ALL = ['F19', 'F18', 'F17', 'F16', 'F15', 'F1', 'F2', 'F3', 'F4', 'F5', 'F6', 'F7', 'F8', 'F9', 'F10', 'F11', 'F12', 'F13', 'F14']
 
 if __name__ == '__main__':
